@@ -103,6 +103,8 @@ def tls_conn(draw, combos=None, max_records=12, max_len=2000, delivery=None, ep=
                 if spec["sh_ext"] == "none":
                     spec["after_sh"] = draw(st.one_of(st.none(), st.integers(0, 60)))
             spec["explicit_seq_nonce"] = draw(st.booleans())
+            if not spec["abbreviated"] and draw(st.integers(0, 3)) == 0:
+                spec["false_start"] = draw(st.lists(st.tuples(st.integers(0, 300), st.integers(0, 3)).map(list), min_size=1, max_size=2))
     blk = s.block or 16
     hist = draw(history(max_records, max_len, blk, ver == tlsref.TLS13))
     if ver == tlsref.TLS13:
@@ -157,6 +159,10 @@ def quic_frame(max_data=300):
     return st.one_of(stream, stream, other).map(list)
 
 
+# skipped packet numbers: small, around the 1-byte window (so that truncated numbers of different packets coincide: 126+128+... = 256), large
+GAPS = [0, 0, 0, 1, 2, 100, 125, 126, 127, 128, 129, 200, 254, 255, 256, 70000, 1 << 22]
+
+
 @st.composite
 def quic_steps(draw, max_steps=12, key_updates=True, cids=True, zero_cid=False):
     """application-phase history: mostly datagrams that carry STREAM data (so that the export has something to get wrong)"""
@@ -171,6 +177,8 @@ def quic_steps(draw, max_steps=12, key_updates=True, cids=True, zero_cid=False):
             steps.append({"op": "ncid", "d": d, "len": draw(st.integers(1, 20))})
         elif k in (3, 4) and cids:
             steps.append({"op": "usecid", "d": d, "i": draw(st.integers(0, 5))})
+        elif k == 5:
+            steps.append({"op": "ping", "d": d, "gap": draw(st.sampled_from(GAPS)), "pnl": draw(st.sampled_from([0, 0, 1, 2]))})
         else:
             main = ["stream", draw(st.integers(0, 12)), draw(st.one_of(st.integers(1, 30), st.integers(1, 300))),
                     draw(st.one_of(st.none(), st.integers(0, 1 << 20))), draw(st.booleans()), draw(st.booleans()), draw(QW)]
@@ -183,7 +191,7 @@ def quic_steps(draw, max_steps=12, key_updates=True, cids=True, zero_cid=False):
                 if tot + sz <= 1150:
                     tot += sz
                     kept.append(f)
-            pk = [{"fr": kept or [["ping"]], "gap": draw(st.sampled_from([0, 0, 1, 2, 200, 70000, 1 << 22])) if k % 2 else 0,
+            pk = [{"fr": kept or [["ping"]], "gap": draw(st.sampled_from(GAPS)) if k % 2 else 0,
                    "pnl": draw(st.sampled_from([0, 0, 1, 2, 3, 4]))}]
             if k == 19:
                 pk.insert(0, {"fr": [["ack", 0, 0, 0, [], None, None]]})
